@@ -224,6 +224,8 @@ fn check_case(rep: &Report, case: &Case, labels: &[String], local: &mut Local) {
     }
     let cj = || case.json();
     let w = case.weight();
+    // a refused header (and, for every other case, frame) write precedes the serialisation on this thread
+    subject::refused_writes(local.evals);
     let (stream, bytes) = match subject::encode_bytes(case, &samples, Mode::St) {
         Ok(x) => x,
         Err(EncFail::TooBig(_)) => {
@@ -442,5 +444,5 @@ pub fn run(args: &Args, rep: &Arc<Report>) {
     if args.replay.is_none() {
         run_constructed(rep);
     }
-    rep.add_rule("every emitted stream through parser::stream, each of its frames through parser::frame (CRC checked) and each subframe through parser::subframe: all input consumed, verify() ok, re-serialised bytes identical, Decode::decode equals the input block; non-trivial = a stream with a fixed or LPC subframe");
+    rep.add_rule("every emitted stream (serialised on a thread on which a header / frame write has just been refused by its sink) through parser::stream, each of its frames through parser::frame (CRC checked) and each subframe through parser::subframe: all input consumed, verify() ok, re-serialised bytes identical, Decode::decode equals the input block; non-trivial = a stream with a fixed or LPC subframe");
 }
